@@ -69,7 +69,7 @@ def determinism(n):
             ws = []
             idx = 0
             for gmp in (1, 4, 16, 1, 4, 16):
-                ws.append(simdrive.spawn_worker(plain, prop, 7, 0, n, 300, "quick", outdir, idx, False, digests=True, gomaxprocs=gmp))
+                ws.append(simdrive.spawn_worker(plain, prop, 7, 0, n, 300, "quick", outdir, idx, False, digests=True, gomaxprocs=gmp, nworkers=8))
                 idx += 1
             res = simdrive.wait_workers(ws)
             ref = res[0]["digests"]
